@@ -1,4 +1,5 @@
 import MLProps.Bridge
+import MLProps.LogDet
 import Mathlib.LinearAlgebra.Matrix.PosDef
 import Mathlib.LinearAlgebra.Matrix.NonsingularInverse
 import Mathlib.Algebra.Order.Star.Real
@@ -7,7 +8,7 @@ import Mathlib.Tactic.LinearCombination
 import Mathlib.Tactic.Positivity
 import Mathlib.Tactic.FieldSimp
 /-!
-# C11 — ITML: loop invariants of the Bregman-projection solver
+# C11 — ITML: loop invariants of the Bregman-projection solver, and optimality of its fixed points
 
 For every prior `A₀ ≻ 0`, every list of (non-collapsed) pairs, every `γ > 0`, every order and number
 of projections (hence every number of sweeps / every `max_iter`): the iterate `A` is symmetric positive
@@ -482,3 +483,265 @@ theorem C11_kkt_of_converged (γ : ℝ) (B0 : Matrix (Fin d) (Fin d) ℝ) (numPo
 /-! non-vacuity: a violated similarity constraint (distance² 4 > bound 1) makes the projection move -/
 example : (itmlStep (K := Rat) 1 (1/2) 1 #v[#v[2]] ⟨0, by decide⟩ (itmlInit #v[#v[1]] 1 1 1)).lam[0] = 3/8 := by
   decide +kernel
+
+/-! ## KKT ⇒ global optimum of the slack-regularised LogDet program -/
+
+/-- the documented objective `D_ld(M, M₀) + γ·D_ld(diag ξ, diag ξ₀)` up to the additive constant
+`−log det M₀⁻¹ − d − γ Σ_j (1 − log ξ₀ⱼ)`; `B0 = M₀⁻¹` -/
+noncomputable def itmlObjective (B0 : Matrix (Fin d) (Fin d) ℝ) (γ : ℝ) (ξ0 : Fin m → ℝ)
+    (M : Matrix (Fin d) (Fin d) ℝ) (ξ : Fin m → ℝ) : ℝ :=
+  (M * B0).trace - Real.log M.det + γ * ∑ j, (ξ j / ξ0 j - Real.log (ξ j))
+
+/-- similar pairs within their slack bound, dissimilar pairs beyond it -/
+def ItmlFeasible (numPos : ℕ) (v : Fin m → Fin d → ℝ) (M : Matrix (Fin d) (Fin d) ℝ) (ξ : Fin m → ℝ) : Prop :=
+  ∀ j : Fin m, 0 ≤ ysign numPos j * (ξ j - v j ⬝ᵥ M *ᵥ v j)
+
+theorem trace_mul_vecMulVec (M : Matrix (Fin d) (Fin d) ℝ) (v : Fin d → ℝ) :
+    (M * vecMulVec v v).trace = v ⬝ᵥ M *ᵥ v := by
+  rw [Matrix.mul_vecMulVec, Matrix.trace_vecMulVec, dotProduct_comm]
+
+theorem trace_mul_sum_vecMulVec (M : Matrix (Fin d) (Fin d) ℝ) (c : Fin m → ℝ) (v : Fin m → Fin d → ℝ) :
+    (M * ∑ j, c j • vecMulVec (v j) (v j)).trace = ∑ j, c j * (v j ⬝ᵥ M *ᵥ v j) := by
+  rw [Matrix.mul_sum, Matrix.trace_sum]
+  apply Finset.sum_congr rfl; intro j _
+  rw [Matrix.mul_smul, Matrix.trace_smul, trace_mul_vecMulVec, smul_eq_mul]
+
+/-- **KKT ⇒ the unique optimum.**  If `A ≻ 0`, `A⁻¹ = M₀⁻¹ + Σ y_j λ_j v_j v_jᵀ`,
+`γ(1/ξ₀ⱼ − 1/ξⱼ) = y_j λ_j`, `λ ≥ 0` and every constraint is inactive (`λ_j = 0`) or tight, then `(A, ξ)`
+minimises the objective over every feasible `(M', ξ')` with `M' ≻ 0`, `ξ' > 0`, and any feasible point
+that does as well is `(A, ξ)` itself. -/
+theorem C11_kkt_optimal_unique (B0 : Matrix (Fin d) (Fin d) ℝ) (γ : ℝ) (hγ : 0 < γ) (ξ0 : Fin m → ℝ) (numPos : ℕ)
+    (v : Fin m → Fin d → ℝ) (A : Matrix (Fin d) (Fin d) ℝ) (ξ lam : Fin m → ℝ)
+    (hA : A.PosDef) (hξ : ∀ j, 0 < ξ j)
+    (hinv : A * (B0 + ∑ j, (ysign numPos j * lam j) • vecMulVec (v j) (v j)) = 1)
+    (hslack : ∀ j, 1 / ξ j = 1 / ξ0 j - ysign numPos j * lam j / γ)
+    (hlam : ∀ j, 0 ≤ lam j)
+    (hcs : ∀ j, lam j = 0 ∨ v j ⬝ᵥ A *ᵥ v j = ξ j)
+    (M' : Matrix (Fin d) (Fin d) ℝ) (ξ' : Fin m → ℝ) (hM' : M'.PosDef) (hξ' : ∀ j, 0 < ξ' j)
+    (hfeas : ItmlFeasible numPos v M' ξ') :
+    itmlObjective B0 γ ξ0 A ξ ≤ itmlObjective B0 γ ξ0 M' ξ' ∧
+    (itmlObjective B0 γ ξ0 M' ξ' ≤ itmlObjective B0 γ ξ0 A ξ → M' = A ∧ ξ' = ξ) := by
+  set S := ∑ j, (ysign numPos j * lam j) • vecMulVec (v j) (v j) with hS
+  set W := B0 + S with hW
+  have hWinv : A⁻¹ = W := Matrix.inv_eq_right_inv hinv
+  have hWpd : W.PosDef := hWinv ▸ hA.inv
+  -- determinant bookkeeping
+  have hdetAW : A.det * W.det = 1 := by rw [← Matrix.det_mul, hinv, Matrix.det_one]
+  have hdA := hA.det_pos
+  have hlogW : Real.log W.det = - Real.log A.det := by
+    have : W.det = (A.det)⁻¹ := by field_simp; linarith [hdetAW]
+    rw [this, Real.log_inv]
+  -- the matrix part
+  have h1 := log_det_pd_le W M' hWpd hM'
+  have htrAW : (A * W).trace = d := by rw [hinv]; simp
+  have hB0 : B0 = W - S := by simp [hW]
+  have e1 : (M' * B0).trace = (W * M').trace - ∑ j, (ysign numPos j * lam j) * (v j ⬝ᵥ M' *ᵥ v j) := by
+    rw [hB0, Matrix.mul_sub, Matrix.trace_sub, Matrix.trace_mul_comm M' W, hS, trace_mul_sum_vecMulVec]
+  have e2 : (A * B0).trace = d - ∑ j, (ysign numPos j * lam j) * (v j ⬝ᵥ A *ᵥ v j) := by
+    rw [hB0, Matrix.mul_sub, Matrix.trace_sub, htrAW, hS, trace_mul_sum_vecMulVec]
+  -- the slack part: the gap of term j is exactly the gap of `log x ≤ x − 1` at `x = ξ'ⱼ/ξⱼ`
+  have key : ∀ j, (ξ' j / ξ0 j - Real.log (ξ' j))
+      - (ξ j / ξ0 j - Real.log (ξ j) + ysign numPos j * lam j / γ * (ξ' j - ξ j))
+      = (ξ' j / ξ j - 1) - (Real.log (ξ' j) - Real.log (ξ j)) := by
+    intro j
+    have hs := hslack j
+    have : ysign numPos j * lam j / γ = 1 / ξ0 j - 1 / ξ j := by linarith
+    rw [this]
+    have hne := (hξ j).ne'
+    have e : ξ' j / ξ j = (ξ' j - ξ j) * (1 / ξ j) + 1 := by field_simp; ring
+    rw [e]; ring
+  have hlog : ∀ j, Real.log (ξ' j) - Real.log (ξ j) ≤ ξ' j / ξ j - 1 := by
+    intro j
+    have hx : 0 < ξ' j / ξ j := div_pos (hξ' j) (hξ j)
+    have hl := Real.log_le_sub_one_of_pos hx
+    rwa [Real.log_div (hξ' j).ne' (hξ j).ne'] at hl
+  have h2 : ∀ j ∈ Finset.univ, ξ j / ξ0 j - Real.log (ξ j) + ysign numPos j * lam j / γ * (ξ' j - ξ j)
+      ≤ ξ' j / ξ0 j - Real.log (ξ' j) := by
+    intro j _
+    have := key j; have := hlog j
+    linarith
+  have h2s := Finset.sum_le_sum h2
+  -- complementary slackness and feasibility, term by term
+  have h3 : ∀ j, 0 ≤ (ysign numPos j * lam j) * ((v j ⬝ᵥ A *ᵥ v j) - ξ j)
+      - (ysign numPos j * lam j) * ((v j ⬝ᵥ M' *ᵥ v j) - ξ' j) := by
+    intro j
+    have hf := hfeas j
+    have t1 : (ysign numPos j * lam j) * ((v j ⬝ᵥ A *ᵥ v j) - ξ j) = 0 := by
+      rcases hcs j with h | h
+      · rw [h]; ring
+      · rw [h]; ring
+    rw [t1]
+    have : (ysign numPos j * lam j) * ((v j ⬝ᵥ M' *ᵥ v j) - ξ' j)
+        = - (lam j * (ysign numPos j * (ξ' j - v j ⬝ᵥ M' *ᵥ v j))) := by ring
+    rw [this]
+    have := mul_nonneg (hlam j) hf
+    linarith
+  have h3s := Finset.sum_nonneg (fun j (_ : j ∈ Finset.univ) => h3 j)
+  rw [Finset.sum_sub_distrib] at h3s
+  simp only [mul_sub, Finset.sum_sub_distrib] at h3s
+  have h2s' : γ * ∑ j, ysign numPos j * lam j / γ * (ξ' j - ξ j)
+      = ∑ j, (ysign numPos j * lam j) * ξ' j - ∑ j, (ysign numPos j * lam j) * ξ j := by
+    rw [Finset.mul_sum, ← Finset.sum_sub_distrib]
+    apply Finset.sum_congr rfl; intro j _
+    field_simp
+  have hmul := mul_le_mul_of_nonneg_left h2s hγ.le
+  rw [Finset.sum_add_distrib, mul_add, h2s'] at hmul
+  unfold itmlObjective
+  rw [e1, e2]
+  refine ⟨by linarith, ?_⟩
+  intro hle
+  -- all three gaps vanish
+  have g1 : (W * M').trace - d ≤ Real.log W.det + Real.log M'.det := by linarith
+  have hWM : W * M' = 1 := mul_eq_one_of_log_det_eq W M' hWpd hM' g1
+  have hMA : M' = A := by
+    calc M' = (A * W) * M' := by rw [hinv, Matrix.one_mul]
+      _ = A * (W * M') := Matrix.mul_assoc _ _ _
+      _ = A := by rw [hWM, Matrix.mul_one]
+  have g2 : γ * ∑ j, (ξ' j / ξ0 j - Real.log (ξ' j))
+      ≤ γ * ∑ j, (ξ j / ξ0 j - Real.log (ξ j) + ysign numPos j * lam j / γ * (ξ' j - ξ j)) := by
+    rw [Finset.sum_add_distrib, mul_add, h2s']; linarith
+  have g2' := le_of_mul_le_mul_left g2 hγ
+  have heq := (Finset.sum_eq_sum_iff_of_le h2).mp (le_antisymm h2s g2')
+  refine ⟨hMA, ?_⟩
+  funext j
+  have hj := heq j (Finset.mem_univ j)
+  have hk := key j
+  have hx : 0 < ξ' j / ξ j := div_pos (hξ' j) (hξ j)
+  by_contra hne
+  have hne' : ξ' j / ξ j ≠ 1 := by
+    intro h1'; exact hne ((div_eq_one_iff_eq (hξ j).ne').mp h1')
+  have := Real.log_lt_sub_one_of_pos hx hne'
+  rw [Real.log_div (hξ' j).ne' (hξ j).ne'] at this
+  linarith
+
+theorem C11_kkt_optimal (B0 : Matrix (Fin d) (Fin d) ℝ) (γ : ℝ) (hγ : 0 < γ) (ξ0 : Fin m → ℝ) (numPos : ℕ)
+    (v : Fin m → Fin d → ℝ) (A : Matrix (Fin d) (Fin d) ℝ) (ξ lam : Fin m → ℝ)
+    (hA : A.PosDef) (hξ : ∀ j, 0 < ξ j)
+    (hinv : A * (B0 + ∑ j, (ysign numPos j * lam j) • vecMulVec (v j) (v j)) = 1)
+    (hslack : ∀ j, 1 / ξ j = 1 / ξ0 j - ysign numPos j * lam j / γ)
+    (hlam : ∀ j, 0 ≤ lam j)
+    (hcs : ∀ j, lam j = 0 ∨ v j ⬝ᵥ A *ᵥ v j = ξ j)
+    (M' : Matrix (Fin d) (Fin d) ℝ) (ξ' : Fin m → ℝ) (hM' : M'.PosDef) (hξ' : ∀ j, 0 < ξ' j)
+    (hfeas : ItmlFeasible numPos v M' ξ') :
+    itmlObjective B0 γ ξ0 A ξ ≤ itmlObjective B0 γ ξ0 M' ξ' :=
+  (C11_kkt_optimal_unique B0 γ hγ ξ0 numPos v A ξ lam hA hξ hinv hslack hlam hcs M' ξ' hM' hξ' hfeas).1
+
+/-! ## the solver's slack variables satisfy their stationarity equation at every step -/
+
+/-- `γ(1/ξ₀ⱼ − 1/ξⱼ) = y_j λ_j`, in the form the solver maintains -/
+def SlackInv (γ : ℝ) (ξ0 : Fin m → ℝ) (numPos : ℕ) (s : ItmlState ℝ d m) : Prop :=
+  ∀ j : Fin m, 1 / s.bhat[j] = 1 / ξ0 j - ysign numPos j * s.lam[j] / γ
+
+theorem itmlStep_slack (γ gproj : ℝ) (ξ0 : Fin m → ℝ) (numPos : ℕ) (vs : Vector (Vector ℝ d) m) (i : Fin m)
+    (s : ItmlState ℝ d m) (h : SlackInv γ ξ0 numPos s) : SlackInv γ ξ0 numPos (itmlStep γ gproj numPos vs i s) := by
+  intro j
+  rw [itmlStep_lam, itmlStep_bhat, vector_set_get, vector_set_get]
+  by_cases hij : i = j
+  · subst hij
+    simp only [if_true]
+    have := h i
+    by_cases hpos : i.val < numPos
+    · have hy : ysign numPos i = 1 := by simp [ysign, hpos]
+      rw [if_pos hpos, one_div_one_div, this, hy]; ring
+    · have hy : ysign numPos i = -1 := by simp [ysign, hpos]
+      rw [if_neg hpos, one_div_one_div, this, hy]; ring
+  · simp only [hij, if_false]; exact h j
+
+theorem itmlSteps_slack (γ gproj : ℝ) (ξ0 : Fin m → ℝ) (numPos : ℕ) (vs : Vector (Vector ℝ d) m)
+    (order : List (Fin m)) (s : ItmlState ℝ d m) (h : SlackInv γ ξ0 numPos s) :
+    SlackInv γ ξ0 numPos (itmlSteps γ gproj numPos vs order s) := by
+  induction order generalizing s with
+  | nil => exact h
+  | cons i rest ih =>
+    simp only [itmlSteps, List.foldl_cons]
+    exact ih _ (itmlStep_slack γ gproj ξ0 numPos vs i s h)
+
+theorem itmlInit_slack (γ : ℝ) (A0 : Vector (Vector ℝ d) d) (numPos : ℕ) (u l : ℝ) :
+    SlackInv γ (fun j : Fin m => if j.val < numPos then u else l) numPos (itmlInit A0 numPos u l : ItmlState ℝ d m) := by
+  intro j
+  simp [itmlInit]
+
+/-- a vanishing projection step means: constraint satisfied, and inactive or tight -/
+theorem stepAlpha_zero (γ : ℝ) (hγ : 0 < γ) (numPos : ℕ) (vs : Vector (Vector ℝ d) m) (j : Fin m)
+    (s : ItmlState ℝ d m) (hp : 0 < stepP vs j s) (hξ : 0 < s.bhat[j])
+    (h0 : stepAlpha (γ / (γ + 1)) numPos vs j s = 0) :
+    0 ≤ ysign numPos j * (s.bhat[j] - stepP vs j s) ∧ (s.lam[j] = 0 ∨ stepP vs j s = s.bhat[j]) := by
+  have hg : 0 < γ / (γ + 1) := div_pos hγ (by linarith)
+  set p := stepP vs j s
+  set ξ := s.bhat[j]
+  unfold stepAlpha at h0
+  by_cases hpos : j.val < numPos
+  · rw [if_pos hpos] at h0
+    have hy : ysign numPos j = 1 := by simp [ysign, hpos]
+    rw [hy]
+    have hr : 0 ≤ γ / (γ + 1) * (1 / p - 1 / ξ) := by
+      have := min_le_right s.lam[j] (γ / (γ + 1) * (1 / p - 1 / ξ)); rw [h0] at this; exact this
+    have hr' : 0 ≤ 1 / p - 1 / ξ := nonneg_of_mul_nonneg_right hr hg
+    have hle : p ≤ ξ := by
+      have : 1 / ξ ≤ 1 / p := by linarith
+      exact (one_div_le_one_div hξ hp).mp this
+    refine ⟨by linarith, ?_⟩
+    rcases min_choice s.lam[j] (γ / (γ + 1) * (1 / p - 1 / ξ)) with hm | hm
+    · left; rw [hm] at h0; exact h0
+    · right
+      rw [hm] at h0
+      have : 1 / p - 1 / ξ = 0 := by
+        rcases mul_eq_zero.mp h0 with h | h
+        · exact absurd h hg.ne'
+        · exact h
+      have : 1 / p = 1 / ξ := by linarith
+      field_simp at this
+      linarith
+  · rw [if_neg hpos] at h0
+    have hy : ysign numPos j = -1 := by simp [ysign, hpos]
+    rw [hy]
+    have hr : 0 ≤ γ / (γ + 1) * (1 / ξ - 1 / p) := by
+      have := min_le_right s.lam[j] (γ / (γ + 1) * (1 / ξ - 1 / p)); rw [h0] at this; exact this
+    have hr' : 0 ≤ 1 / ξ - 1 / p := nonneg_of_mul_nonneg_right hr hg
+    have hle : ξ ≤ p := by
+      have : 1 / p ≤ 1 / ξ := by linarith
+      exact (one_div_le_one_div hp hξ).mp this
+    refine ⟨by linarith, ?_⟩
+    rcases min_choice s.lam[j] (γ / (γ + 1) * (1 / ξ - 1 / p)) with hm | hm
+    · left; rw [hm] at h0; exact h0
+    · right
+      rw [hm] at h0
+      have : 1 / ξ - 1 / p = 0 := by
+        rcases mul_eq_zero.mp h0 with h | h
+        · exact absurd h hg.ne'
+        · exact h
+      have : 1 / ξ = 1 / p := by linarith
+      field_simp at this
+      linarith
+
+/-- **C11, optimality of the converged solver state.**  Start from any prior `A₀ ≻ 0` (`B₀ = A₀⁻¹`),
+positive bounds `u` (similar) and `l` (dissimilar) — in either order —, `γ > 0`, non-collapsed pairs; run
+any sequence of projections.  If every projection step now vanishes (the solver's convergence condition)
+then the final `(A, ξ)` is feasible, minimises the slack-regularised LogDet objective over all feasible
+`(M', ξ')`, and is the only feasible point attaining that minimum.  (The hypothesis is satisfiable: see
+`C11_prior_feasible_fixed` — a prior that meets all bounds makes every step vanish.) -/
+theorem C11_converged_optimal (γ : ℝ) (hγ : 0 < γ) (A0 : Vector (Vector ℝ d) d) (B0 : Matrix (Fin d) (Fin d) ℝ)
+    (numPos : ℕ) (vs : Vector (Vector ℝ d) m) (u l : ℝ) (hu : 0 < u) (hl : 0 < l)
+    (hpd : (Matrix.of (Mat.ofStore A0)).PosDef) (hB : Matrix.of (Mat.ofStore A0) * B0 = 1)
+    (hv : ∀ i : Fin m, vvec vs i ≠ 0) (order : List (Fin m))
+    (hconv : ∀ j : Fin m, stepAlpha (γ / (γ + 1)) numPos vs j
+      (itmlSteps γ (γ / (γ + 1)) numPos vs order (itmlInit A0 numPos u l)) = 0) :
+    let s := itmlSteps γ (γ / (γ + 1)) numPos vs order (itmlInit A0 numPos u l)
+    let ξ0 : Fin m → ℝ := fun j => if j.val < numPos then u else l
+    let ξ : Fin m → ℝ := fun j => s.bhat[j]
+    ItmlFeasible numPos (vvec vs) (Amat s) ξ ∧
+    ∀ (M' : Matrix (Fin d) (Fin d) ℝ) (ξ' : Fin m → ℝ), M'.PosDef → (∀ j, 0 < ξ' j) →
+      ItmlFeasible numPos (vvec vs) M' ξ' →
+      itmlObjective B0 γ ξ0 (Amat s) ξ ≤ itmlObjective B0 γ ξ0 M' ξ' ∧
+      (itmlObjective B0 γ ξ0 M' ξ' ≤ itmlObjective B0 γ ξ0 (Amat s) ξ → M' = Amat s ∧ ξ' = ξ) := by
+  intro s ξ0 ξ
+  have hI : ItmlInv B0 numPos vs s := C11_invariant γ hγ A0 B0 numPos vs u l hu hl hpd hB hv order
+  have hS : SlackInv γ ξ0 numPos s := itmlSteps_slack γ _ ξ0 numPos vs order _ (itmlInit_slack γ A0 numPos u l)
+  have hp : ∀ j, 0 < stepP vs j s := fun j => by
+    have := hI.pd.dotProduct_mulVec_pos (hv j)
+    simpa [stepP] using this
+  have hz := fun j => stepAlpha_zero γ hγ numPos vs j s (hp j) (hI.xi_pos j) (hconv j)
+  refine ⟨fun j => (hz j).1, ?_⟩
+  intro M' ξ' hM' hξ' hfeas
+  exact C11_kkt_optimal_unique B0 γ hγ ξ0 numPos (vvec vs) (Amat s) ξ (fun j => s.lam[j]) hI.pd (fun j => hI.xi_pos j)
+    hI.inv (fun j => hS j) (fun j => hI.lam_nonneg j) (fun j => (hz j).2) M' ξ' hM' hξ' hfeas
